@@ -165,6 +165,9 @@ TMoves ==
        ELSE IF Cardinality(got) # Len(Ev.mv) THEN Reject(st, "duplicate moves", Len(Ev.mv), "stable")
        ELSE Accept(st, "generating moves changed the caller's board", "stable")
 
+\* a getter of the board itself panicked while the recorder was reading the state (no projection available)
+TCrash == Ev.ev = "Crash" /\ mode = "ok" /\ Bad("reading the board's state panicked (corrupted history stacks)", {"failed"}, Ev.panic) /\ Keep /\ mode' = "skip" /\ Advance
+
 TToggle == Ev.ev = "Toggle" /\ mode = "ok" /\ Accept(ToggleTurn(st), "state after toggle_turn differs", "stable")
 
 TCount ==
@@ -436,7 +439,7 @@ TGEnding ==
 
 Init == l = 2 /\ st = EmptyEngine /\ keyS = << >> /\ mode = "skip"
 Next == l <= NRec /\ (TReset \/ TSkipped \/ TApply \/ TUndo \/ TToggle \/ TCount \/ TUncount \/ TQuery \/ TEnding
-                       \/ TGReset \/ TGToggle \/ TCoordBatch \/ TCoord \/ TLabelBatch \/ TLabel \/ TEngineMove \/ TGEnding \/ TBookEdges \/ TSearch \/ TCli \/ TCliReset \/ TWatch \/ TWatchEnd \/ TBridge \/ TBridgeEnd \/ TClone \/ TCloneUndo \/ TMoves
+                       \/ TGReset \/ TGToggle \/ TCoordBatch \/ TCoord \/ TLabelBatch \/ TLabel \/ TEngineMove \/ TGEnding \/ TBookEdges \/ TSearch \/ TCli \/ TCliReset \/ TWatch \/ TWatchEnd \/ TBridge \/ TBridgeEnd \/ TClone \/ TCloneUndo \/ TMoves \/ TCrash
                        \/ TEReset \/ TPut \/ TRemove \/ TLoseRights \/ TPushEp \/ TPopEp)
 Spec == Init /\ [][Next]_vars
 
